@@ -575,24 +575,15 @@ class AttributeCollection(MutableMapping[int, Attribute]):
             self.add(cached, key)
             return
 
-        len2 = len(as2path.as_seq)
-        len4 = len(as4path.as_seq)
+        def merged(two: list[Any], four: list[Any]) -> list[Any]:
+            # RFC 6793 section 4.2.3: with fewer ASes in AS_PATH than in AS4_PATH the AS4_PATH is
+            # ignored, otherwise the leading (len2 - len4) ASes of AS_PATH are prepended to it
+            if len(two) < len(four):
+                return list(two)
+            return list(two[: len(two) - len(four)]) + list(four)
 
-        # RFC 4893 section 4.2.3
-        if len2 < len4:
-            as_seq = as2path.as_seq
-        else:
-            as_seq = as2path.as_seq[:-len4]
-            as_seq.extend(as4path.as_seq)
-
-        len2 = len(as2path.as_set)
-        len4 = len(as4path.as_set)
-
-        if len2 < len4:
-            as_set = as4path.as_set
-        else:
-            as_set = as2path.as_set[:-len4]
-            as_set.extend(as4path.as_set)
+        as_seq = merged(as2path.as_seq, as4path.as_seq)
+        as_set = merged(as2path.as_set, as4path.as_set)
 
         # Build segments from merged ASN lists
         segments: list[SET | SEQUENCE] = []
@@ -600,7 +591,8 @@ class AttributeCollection(MutableMapping[int, Attribute]):
             segments.append(SEQUENCE(as_seq))
         if as_set:
             segments.append(SET(as_set))
-        aspath = AS2Path.make_aspath(segments)
+        # the merged path carries the 4-byte ASNs of AS4_PATH: it can only be held in 4-byte form
+        aspath = AS2Path.make_aspath(segments, asn4=True)
         self.add(aspath, key)
 
     def __hash__(self) -> int:
